@@ -20,6 +20,7 @@ EXPLANATION = (
     "in the same block (and vice versa), and whole-row stores are empty_line(); (5) PROG: every while loop of the emulator assigns its driving variable on every back edge."
     ' Added after seed round 3: (11) every path through push_cursor stores is_rotten_cursor; (12) the reverse and forward arms of linefeed test mirrored comparisons.'
     ' Round 4: C15.4 follows locals bound to a grid row (`line = self.term[y]`); (13) every scroll decision of linefeed / push_cursor compares the row with the scroll-region margin.'
+    ' Round-4 triage: (14) scroll / IL / DL pop before they insert and IL / DL return outside the scrolling region; (15) erase calls pass inclusive cursor coordinates; (16) the canvas cursor is built from constrained coordinates; (17) counting loops driven by an escape-sequence parameter are clamped with min() first; (18) SGR state: csi_set_attr() undoes exactly the colour adjustment sgi_to_attrspec() applies (bold->bright, foreground only) and no SGR parameter is interpreted by fixed position.'
 )
 NOT_DECIDED = (
     "Index-bounds safety of every self.term[y][x] access (IndexError is outside the exception model; only the clamp discipline is decided), width normalisation of rows returned "
@@ -602,6 +603,79 @@ def rule_bounded_counts(ctx: Ctx) -> RuleResult:
     return rr
 
 
+def rule_sgr_state(ctx: Ctx) -> RuleResult:
+    """SGR is incremental: csi_set_attr() rebuilds (fg, bg, attributes) from the stored AttrSpec, sgi_to_attrspec()
+    applies the new parameters and maps the result to a new AttrSpec.  Two structural conditions:
+
+    (a) the only adjustment sgi_to_attrspec() makes to a colour number after parsing is `fg += K` under a condition on
+        "bold" (bold -> bright in 16-colour mode).  The reconstruction in csi_set_attr() may undo exactly that: a
+        `-= K` on the number taken from foreground_number must be conditioned on the stored spec's `.bold`, and a
+        colour role sgi_to_attrspec() never adjusts (the background) must not be adjusted at all - otherwise a
+        bright colour chosen with 90-97 / 100-107 turns dark at the next SGR sequence;
+    (b) the parameter list is interpreted only by the index-advancing loop of sgi_to_attrspec(), which skips the
+        operands of 38 / 48: no other test of an element of the list (a trailing 0 is the operand of 38;5;0)."""
+    p = ctx.p
+    rr = RuleResult("SIB", "C15.18", "csi_set_attr() undoes exactly the colour adjustments sgi_to_attrspec() applies (bold->bright on the foreground only) and does not interpret SGR parameters by position", floor=3)
+    sgi = p.func(f"{VT}.TermCanvas.sgi_to_attrspec")
+    csa = p.func(f"{VT}.TermCanvas.csi_set_attr")
+    sp = [x for x in sgi.params if x != sgi.self_name]
+    if len(sp) < 4:
+        raise AnalysisError("sgi_to_attrspec: expected (attrs, fg, bg, attributes, ...) parameters")
+    calls = [c for c in csa.own_nodes() if isinstance(c, ast.Call) and isinstance(c.func, ast.Attribute) and c.func.attr == sgi.name]
+    if len(calls) != 1:
+        raise AnalysisError("csi_set_attr: expected one sgi_to_attrspec() call")
+    role_of = {}
+    for i, a in enumerate(calls[0].args):
+        if isinstance(a, ast.Name) and i < len(sp):
+            role_of[a.id] = sp[i]
+    # adjustments in sgi: AugAssign +K on a colour parameter outside the parsing loop
+    loops = [n for n in sgi.own_nodes() if isinstance(n, ast.While)]
+    in_loop = {id(x) for l in loops for x in ast.walk(l)}
+    cfg_s = cfg_of(sgi)
+    applied = {}
+    for n in cfg_s.nodes:
+        a = n.ast
+        if isinstance(a, ast.AugAssign) and isinstance(a.target, ast.Name) and a.target.id in sp[1:3] and isinstance(a.op, ast.Add) and isinstance(a.value, ast.Constant) and id(a) not in in_loop:
+            conds = " and ".join(norm(t.ast, 80) for t in cfg_s.nodes if t.kind == "test" and n not in ExcEngine._reach_without_edge(cfg_s, t, "T"))
+            applied[a.target.id] = (a.value.value, conds)
+    cfg_c = cfg_of(csa)
+    seen_roles = set()
+    for n in cfg_c.nodes:
+        a = n.ast
+        if isinstance(a, ast.AugAssign) and isinstance(a.target, ast.Name) and a.target.id in role_of and role_of[a.target.id] in sp[1:3] and isinstance(a.op, (ast.Sub, ast.Add)) and isinstance(a.value, ast.Constant):
+            role = role_of[a.target.id]
+            seen_roles.add(role)
+            conds = [t for t in cfg_c.nodes if t.kind == "test" and n not in ExcEngine._reach_without_edge(cfg_c, t, "T")]
+            ctext = " and ".join(norm(t.ast, 80) for t in conds)
+            rr.inst(f"undo on {role}", True, {"role": role, "undo": norm(a), "under": ctext, "applied_in_sgi": applied.get(role)})
+            if role not in applied:
+                rr.add(finding("SIB", csa, a, f"`{norm(a)}` adjusts the stored {role} number before the next SGR is applied, but sgi_to_attrspec() never adjusts `{role}` after parsing: a bright colour selected with 100-107 / 90-97 is turned into its dark counterpart by the next SGR sequence", construct=f"{role}: adjustment without counterpart"))
+                continue
+            k, acond = applied[role]
+            bold_needed = "bold" in acond
+            has_bold = any(isinstance(x, ast.Attribute) and x.attr == "bold" for t in conds for x in ast.walk(t.ast)) or any(isinstance(x, ast.Constant) and x.value == "bold" for t in conds for x in ast.walk(t.ast))
+            if not isinstance(a.op, ast.Sub) or a.value.value != k or (bold_needed and not has_bold):
+                rr.add(finding("SIB", csa, a, f"`{norm(a)}` (under `{ctext}`) is not the inverse of `{role} += {k}` (under `{acond}`) in sgi_to_attrspec(): a bright {role} that does not come from bold (SGR 90-97) is turned dark by the next SGR sequence", construct=f"{role}: undo not conditioned like the mapping"))
+    for role, (k, acond) in applied.items():
+        rr.inst(f"mapping on {role}", True, {"role": role, "mapping": f"{role} += {k}", "under": acond, "undone_in_csi_set_attr": role in seen_roles})
+        if role not in seen_roles:
+            rr.add(finding("SIB", csa, calls[0], f"sgi_to_attrspec() maps `{role} += {k}` under `{acond}` but csi_set_attr() passes the stored (already mapped) number back in without undoing it", construct=f"{role}: mapping never undone"))
+    # (b) positional tests on the parameter list
+    cp = [x for x in csa.params if x != csa.self_name]
+    n_ok = 0
+    for fi, lst in ((csa, cp[0]), (sgi, sp[0])):
+        for n in fi.own_nodes():
+            if isinstance(n, ast.Subscript) and isinstance(n.value, ast.Name) and n.value.id == lst:
+                idx = n.slice
+                names = {x.id for x in ast.walk(idx) if isinstance(x, ast.Name)}
+                ok = fi is sgi and bool(names) and id(n) in in_loop
+                n_ok += 1
+                if not ok:
+                    rr.add(finding("SIB", fi, n, f"`{norm(n)}` reads an SGR parameter by fixed position: whether that element is a command or the operand of 38;5;n / 48;5;n / 38;2;r;g;b is only known to the index-advancing loop of sgi_to_attrspec() (ESC[38;5;0m ends in 0 without being a reset)", construct=f"positional SGR parameter: {norm(n)}"))
+    rr.inst("parameter list read only through the parsing index", True, {"subscripts": n_ok})
+    return rr
+
+
 def run(ctx: Ctx):
     p = ctx.p
     tc = f"{VT}.TermCanvas"
@@ -627,6 +701,7 @@ def run(ctx: Ctx):
         rule_erase_inclusive(ctx),
         rule_cursor_constrained(ctx),
         rule_bounded_counts(ctx),
+        rule_sgr_state(ctx),
     ]
     return out
 
@@ -635,6 +710,10 @@ from ..mutants import Mut  # noqa: E402
 
 _V = "urwid/vterm.py"
 MUTANTS = [
+    Mut("sgr-fg-undo-unconditional", _V, "TermCanvas.csi_set_attr", "if fg >= 8 and self.attrspec.colors == 16 and self.attrspec.bold:", "if fg >= 8 and self.attrspec.colors == 16:", "SIB|vterm.TermCanvas.csi_set_attr|fg"),
+    Mut("sgr-bg-darkened", _V, "TermCanvas.csi_set_attr", "                bg = self.attrspec.background_number\n", "                bg = self.attrspec.background_number\n                if bg >= 8 and self.attrspec.colors == 16:\n                    bg -= 8\n", "SIB|vterm.TermCanvas.csi_set_attr|bg"),
+    Mut("sgr-trailing-zero-reset", _V, "TermCanvas.csi_set_attr", "        attributes = set()\n", "        if attrs[-1] == 0:\n            self.attrspec = None\n        attributes = set()\n", "SIB|vterm.TermCanvas.csi_set_attr|positional"),
+    Mut("twin-sgr-undo-condition-order", _V, "TermCanvas.csi_set_attr", "if fg >= 8 and self.attrspec.colors == 16 and self.attrspec.bold:", "if self.attrspec.bold and self.attrspec.colors == 16 and fg >= 8:", twin=True),
     Mut("ich-count-unclamped", "urwid/vterm.py", "TermCanvas.insert_chars", "        # more than the rest of the row cannot be shifted in\n        chars = min(chars, self.width - x)\n", "", "BOUND|vterm.TermCanvas.insert_chars"),
     Mut("cup-keeps-pending-wrap", "urwid/vterm.py", "TermCanvas.move_cursor", "        # an explicit cursor movement cancels a pending wrap\n        self.is_rotten_cursor = False\n", "", "PASS|vterm.TermCanvas.move_cursor"),
     Mut("canvas-cursor-unconstrained", "urwid/vterm.py", "TermCanvas.set_term_cursor", "        self.term_cursor = x, y = self.constrain_coords(x, y)", "        self.term_cursor = self.constrain_coords(x, y)", "POSBOUND|vterm.TermCanvas.set_term_cursor"),
